@@ -32,6 +32,13 @@ theorem copyInto_of_le {n : Nat} {s : Bytes} (h : s.length ≤ n) :
     copyInto n s = s ++ zeros (n - s.length) := by
   simp [copyInto, List.take_of_length_le h]
 
+theorem Res.bind_eq_ok {α β : Type} {r : Res α} {f : α → Res β} {b : β} (h : r.bind f = .ok b) :
+    ∃ a, r = .ok a ∧ f a = .ok b := by
+  cases r with
+  | ok a => exact ⟨a, rfl, h⟩
+  | err => simp [Res.bind] at h
+  | panic => simp [Res.bind] at h
+
 namespace Lexer
 
 @[simp] theorem consume_append (xs rest : Bytes) (e : Bool) {n : Nat} (h : n = xs.length) :
